@@ -24,6 +24,7 @@ type WaterMark struct {
 	Name      string
 
 	mu      sync.Mutex
+	winMu   sync.RWMutex // slot updates (R) vs window replacement (W); taken after mu
 	waiters map[uint64]chan struct{}
 	window  atomic.Value // *watermarkWindow
 }
@@ -142,17 +143,23 @@ func (w *WaterMark) addIndex(index uint64, delta int32) {
 	w.tryAdvance()
 }
 
-// addCount applies delta to the slot of index without advancing the mark.
+// addCount applies delta to the slot of index. The read lock keeps
+// rebuildWindowLocked from replacing the window between loading it and updating
+// the slot (an update of a retired window would be lost). A rebuild only moves
+// the window forward and never shrinks it, so after ensureWindow the index is
+// either inside the current window or already at/below doneUntil.
 func (w *WaterMark) addCount(index uint64, delta int32) {
 	if index == 0 {
 		return
 	}
 	w.ensureWindow(index)
+	w.winMu.RLock()
 	win := w.loadWindow()
 	VerifYield("wm.add.afterEnsure")
 	if index >= win.base && index-win.base < uint64(len(win.slots)) {
 		win.slots[index-win.base].Add(delta)
 	}
+	w.winMu.RUnlock()
 	VerifYield("wm.add.afterSlot")
 }
 
@@ -240,6 +247,8 @@ func (w *WaterMark) rebuildWindowLocked(index uint64, win *watermarkWindow) {
 		size <<= 1
 	}
 	newSlots := make([]atomic.Int32, size)
+	w.winMu.Lock() // no slot update may be in flight while counts are copied
+	defer w.winMu.Unlock()
 	for i := range win.slots {
 		count := win.slots[i].Load()
 		if count == 0 {
